@@ -246,6 +246,11 @@ def _get_tree(tree_spec):
 # ----------------------------------------------------------------------------------------------
 # reading exports back
 # ----------------------------------------------------------------------------------------------
+def _norm(name):
+    """member name -> the relative path it is extracted to ('./a/' -> 'a', '/a' -> 'a')"""
+    return os.path.normpath("/" + name).lstrip("/")
+
+
 def _compression(data):
     if data[:2] == b"\x1f\x8b":
         return "tgz"
@@ -362,8 +367,9 @@ def impl(inp):
         if real_order != mine:
             side["order"] = (real_order, mine)
             return Err("ITER_ORDER")
-        dest = os.path.join(outdir, inp["dest"])
-        pre = inp.get("pre", "absent")
+        to_stdout = inp["dest"] == "-"          # `brz export -`: the archive goes to sys.stdout, the root is ""
+        dest = "-" if to_stdout else os.path.join(outdir, inp["dest"])
+        pre = inp.get("pre", "absent") if not to_stdout else "absent"
         if pre != "absent":
             os.mkdir(dest)
             if pre == "nonempty":
@@ -373,6 +379,19 @@ def impl(inp):
         err = None
         import warnings
         warnings.filterwarnings("ignore", message="Duplicate name", category=UserWarning)
+        import sys
+        real_stdout = sys.stdout
+        if to_stdout:
+            class _Out:
+                def __init__(self):
+                    self.buffer = io.BytesIO()
+
+                def write(self, x):
+                    pass
+
+                def flush(self):
+                    pass
+            sys.stdout = _Out()
         try:
             if inp["via"] == "cmd":
                 from breezy.builtins import cmd_export
@@ -392,6 +411,13 @@ def impl(inp):
                 raise
             err = type(e).__name__
             side["errmsg"] = repr(e)[:300]
+        finally:
+            if to_stdout:
+                captured = sys.stdout.buffer.getvalue()
+                sys.stdout = real_stdout
+                dest = os.path.join(outdir, "stdout.bin")
+                with open(dest, "wb") as f:
+                    f.write(captured)
         fmt = _effective_format(inp)
         if err is not None:
             side["error"] = err
@@ -416,11 +442,11 @@ def impl(inp):
                         try:
                             z.extract(i, xdir)
                         except OSError as e:       # e.g. NAME + ".lnk" longer than NAME_MAX
-                            unext.append(i.filename.rstrip("/"))
+                            unext.append(_norm(i.filename))
                     side["unextractable"] = unext
                     attrs = {}
                     for i in z.infolist():
-                        attrs.setdefault(i.filename.rstrip("/"), []).append(i.external_attr >> 16)
+                        attrs.setdefault(_norm(i.filename), []).append(i.external_attr >> 16)
             w = _walk(xdir)
             ext = {}
             for rel, (kind, content, ex, target, _m) in w.items():
@@ -431,7 +457,7 @@ def impl(inp):
                     ext[rel] = (kind, content, bool(modes) and all(bool(m & 0o100) for m in modes) and kind == "f", target)
             side["extracted"] = ext
             side["members"] = len(obs[1])
-            side["mtimes"] = {m[0].rstrip("/"): m[3] for m in obs[1]}
+            side["mtimes"] = {_norm(m[0]): m[3] for m in obs[1]}
             return obs
         obs, data = _read_tar(dest, inp)
         xdir = os.path.join(outdir, "x")
@@ -440,7 +466,7 @@ def impl(inp):
             tf.extractall(xdir, filter="tar")
         side["extracted"] = {k: v[:4] for k, v in _walk(xdir).items()}
         side["members"] = len(obs[1])
-        side["mtimes"] = {m[0].rstrip("/"): m[5] for m in obs[1]}
+        side["mtimes"] = {_norm(m[0]): m[5] for m in obs[1]}
         return obs
     finally:
         shutil.rmtree(outdir, ignore_errors=True)
@@ -504,13 +530,15 @@ def _expected(inp):
         rootc = []
     else:
         root = inp["root"]
-        if root is None:
+        if root is None and inp["dest"] == "-":
+            root = ""
+        elif root is None:
             root = os.path.basename(inp["dest"])
             for ext, _f in EXT_TABLE:
                 if root.endswith(ext):
                     root = root[:-len(ext)]
                     break
-        rootc = [c for c in root.split("/") if c]
+        rootc = [c for c in root.split("/") if c and c != "."]      # "", ".", "./", "/" all mean: no root directory
     exp, origin = {}, {}
     for rel, p in sel.items():
         full = "/".join(rootc + [rel])
@@ -652,11 +680,12 @@ def finding_matches(fid, inp, obs, why):
 NFC_NAMES = ["é", "中文", "año ", "Δx", "\U0001f600"]
 ODD_NAMES = [" ", "a b", "-dash", "--", "a\\b", "a:b", "*", "?", "a\tb", "'", '"q"', "~", "#x#", ".hidden", "a.lnk", "x.txt",
              "CaSe", "case", "%41", "a%2Fb", "@", "$HOME", "a;b", "a&b", "(p)", "[x]", "{y}", "a,b", "!", "+", "=", "a|b", "..."]
+DOT_NAMES = [".hidden", ".config", ".a", "..a", ".-", "._x", ".x.txt", "...", ".b", ". ", ".gitignore", "./".strip("/") + "d"]
 BZR_NAMES = [".bzrignore", ".bzrrules", ".bzr-dir", ".bzrfoo.txt", ".bzx", ".bz", "x.bzr"]
 LONG = ["L" * 99, "M" * 100, "N" * 101, "P" * 155, "Q" * 156, "R" * 200, "S" * 255]
 TARGETS = ["f", "d/g", "../x", "/abs/olute", "té ", "T" * 99, "U" * 100, "V" * 101, "W" * 300, "a\tb", " ", "-t",
            "中/文", "dangling", "e\u0301 nfd", "\u00e9\u0323", "a\\b"]
-ROOTS = [None, "", "R", "r/s", "R/", "é r", "-r", " ", "Z" * 120, "r.tar", "a b/c"]
+ROOTS = [None, "", "R", "r/s", "R/", "é r", "-r", " ", "Z" * 120, "r.tar", "a b/c", "", ".", "./", "/", ".r", "", "r/."]
 SIZES = [0, 1, 511, 512, 513, 1024, 10239, 10240, 10241, 20480, 32767, 32768, 32769, 65535, 65536, 65537, 131073]
 
 
@@ -664,8 +693,10 @@ def _rand_name(rng):
     r = rng.random()
     if r < 0.35:
         return rng.choice(["a", "b", "c", "d", "e", "f", "g", "x.txt", "y.txt", "src", "doc", "Makefile", "a.lnk", "b.lnk"])
-    if r < 0.6:
+    if r < 0.5:
         return rng.choice(ODD_NAMES)
+    if r < 0.6:
+        return rng.choice(DOT_NAMES)
     if r < 0.72:
         return rng.choice(NFC_NAMES)
     if r < 0.82:
@@ -764,6 +795,20 @@ FIXED_TREE = [
     ["N" * 101, "f", [[110, 1]], False, "", 1],
     ["é ", "f", [[117, 1]], False, "", 1],
 ]
+DOT_TREE = [
+    [".hidden", "f", [[104, 2]], False, "", 1],
+    ["hidden", "f", [[72, 3]], True, "", 1],
+    [".config", "d", [], False, "", 1],
+    [".config/settings", "f", [[115, 1]], False, "", 2],
+    [".config/.deep", "f", [[100, 1]], True, "", 1],
+    ["config", "d", [], False, "", 1],
+    ["config/settings", "f", [[83, 2]], False, "", 1],
+    ["..a", "f", [[46, 2]], False, "", 1],
+    ["./".strip("/") + ".l", "l", [], False, ".hidden", 1],
+    ["d", "d", [], False, "", 1],
+    ["d/.inner", "f", [[105, 1]], False, "", 1],
+    ["d/...", "d", [], False, "", 1],
+]
 PLAIN_TREE = [e for e in FIXED_TREE if e[1] != "l" and not e[3] and not e[0].startswith(".bzr")]
 
 
@@ -786,6 +831,14 @@ def corpus():
         out.append(_mk(FIXED_TREE, fmt, DEST_FOR[fmt], "", None, True, False))
         out.append(_mk(PLAIN_TREE, fmt, DEST_FOR[fmt], "R", None, True, True))
         out.append(_mk(PLAIN_TREE, fmt, DEST_FOR[fmt], None, "d", False, True, via="cmd"))
+    # leading-dot names (files, directories, look-alikes of each other) under empty / degenerate / ordinary roots
+    for fmt in FORMATS:
+        for root in ("", ".", "./", "/", None, "R", ".r"):
+            out.append(_mk(DOT_TREE, fmt, DEST_FOR[fmt], root, None, False, False))
+        out.append(_mk(DOT_TREE, fmt, DEST_FOR[fmt], "", ".config", False, False))
+        if fmt != "dir":
+            out.append(_mk(DOT_TREE, fmt, "-", None, None, False, False))
+            out.append(_mk(DOT_TREE, fmt, "-", None, "d", True, False, via="cmd"))
     for pre in ("empty", "nonempty"):
         out.append(_mk(PLAIN_TREE, "dir", "outdir", None, None, False, False, pre=pre))
         out.append(_mk(PLAIN_TREE, None, "outdir", None, "d", False, False, via="cmd", pre=pre))
@@ -841,6 +894,8 @@ def cases(rng, tier):
                 # the command resolves its location argument through the file system (follows links, ENAMETOOLONG
                 # for over-long missing names): only existing files / directories are given to it
                 via = "api"
+            if fmt != "dir" and rng.random() < 0.08:
+                dest, f2 = "-", fmt               # archive to standard output
             inp = _mk(tree, f2, dest, root, sd, pft, filtered, via)
             if _effective_format(inp) == "dir" and rng.random() < 0.15:
                 inp["pre"] = rng.choice(["empty", "nonempty"])
